@@ -300,7 +300,7 @@ impl StunAgent {
         skip(self),
     )]
     pub fn poll<'a>(&mut self, now: Instant) -> StunAgentPollRet<'a> {
-        let mut lowest_wait = now + Duration::from_secs(3600);
+        let mut lowest_wait = None;
         let mut timeout = None;
         let mut cancelled = None;
         for request in self.outstanding_requests.values_mut() {
@@ -313,11 +313,10 @@ impl StunAgent {
                 StunRequestPollRet::SendData(transmit) => {
                     return StunAgentPollRet::SendData(transmit.into_owned())
                 }
-                StunRequestPollRet::WaitUntil(wait_until) => {
-                    if wait_until < lowest_wait {
-                        lowest_wait = wait_until;
-                    }
-                }
+                StunRequestPollRet::WaitUntil(wait_until) => match lowest_wait {
+                    Some(lowest) if lowest <= wait_until => (),
+                    _ => lowest_wait = Some(wait_until),
+                },
                 StunRequestPollRet::TimedOut => {
                     timeout = Some(transaction_id);
                     break;
@@ -334,7 +333,8 @@ impl StunAgent {
                 return StunAgentPollRet::TransactionCancelled(transaction);
             }
         }
-        StunAgentPollRet::WaitUntil(lowest_wait)
+        // nothing to wait for: ask to be polled again within the hour
+        StunAgentPollRet::WaitUntil(lowest_wait.unwrap_or(now + Duration::from_secs(3600)))
     }
 }
 
